@@ -146,10 +146,56 @@ type c05Payload struct {
 	Sched c05Sched `json:"schedule"`
 	Entry string   `json:"entry"`
 	InQ   string   `json:"in_quoted"`
+	// Gen, when set, rebuilds a long input (In is then left empty in the replay file).
+	Gen *c05Gen `json:"gen,omitempty"`
 }
+
+// c05Gen describes a stream much longer than the limit: a filler of one kind with
+// one deciding defect at a chosen offset (so that a reader path that stops early,
+// reads in rounded blocks or drops late bytes gives another answer than Detect).
+type c05Gen struct {
+	Filler  string `json:"filler"` // json | text | csv | ndjson | zeros
+	Size    int    `json:"size"`
+	DefAt   int    `json:"defect_at"` // -1: none
+	DefByte byte   `json:"defect_byte"`
+}
+
+func (g *c05Gen) build() []byte {
+	var unit, head []byte
+	switch g.Filler {
+	case "json":
+		head, unit = []byte("["), []byte(`{"k":[1,2,3],"s":"some text"},`)
+	case "text":
+		unit = []byte("a line of plain text, long enough.\n")
+	case "csv":
+		unit = []byte("alpha,beta,gamma,delta\n")
+	case "ndjson":
+		unit = []byte("{\"a\":1,\"b\":[true,null]}\n")
+	default:
+		unit = []byte{0}
+		head = []byte("\x89PNG\x0d\x0a\x1a\x0a\x00\x00\x00\x0dIHDR")
+	}
+	x := make([]byte, 0, g.Size+len(unit))
+	x = append(x, head...)
+	for len(x) < g.Size {
+		x = append(x, unit...)
+	}
+	x = x[:g.Size]
+	if g.DefAt >= 0 && g.DefAt < len(x) {
+		x[g.DefAt] = g.DefByte
+	}
+	return x
+}
+
+// c05CurGen is copied into the payloads of the long-stream batch instead of the input.
+var c05CurGen *c05Gen
 
 func c05JudgeReader(c *fw.Ctx, kind string, x []byte, limit uint32, prev uint32, s c05Sched) {
 	p := c05Payload{Kind: kind, In: x, Limit: limit, Prev: prev, Sched: s, Entry: "DetectReader", InQ: fw.Quote(x, 80)}
+	if c05CurGen != nil {
+		g := *c05CurGen
+		p.In, p.Gen = nil, &g
+	}
 	key := fw.InputKey(x, limit, fmt.Sprintf("DetectReader/chunk=%d/zero=%d/eofwith=%v/errat=%d/errwith=%v/prev=%d", s.Chunk, s.ZeroN, s.EOFWith, s.ErrAt, s.ErrWith, prev))
 	c.Trace(func() (string, any) { return key, p })
 	var want lib.Chain
@@ -348,6 +394,64 @@ func c05Run(c *fw.Ctx, b fw.Batch) {
 				}
 			}
 		}
+	case "long-stream":
+		// streams much longer than the limit, limits 4 KiB … 5 MiB: the reader path must hand
+		// exactly the first `limit` bytes to the detectors, consume no more, and surface late errors
+		limits := []int{4095, 4096, 4097, 8191, 8193, 65535, 65536, 65537, 131073, 1<<20 - 1, 1 << 20, 1<<20 + 1, 2<<20 + 5, 4<<20 + 3,
+			4096 + r.Intn(60000), 65536 + r.Intn(1<<20), 1<<20 + r.Intn(4<<20)}
+		fillers := []string{"json", "text", "csv", "ndjson", "zeros"}
+		type combo struct {
+			f string
+			L int
+		}
+		var all []combo
+		for _, f := range fillers {
+			for _, L := range limits {
+				all = append(all, combo{f, L})
+			}
+		}
+		lo, hi := split(len(all), b.Idx, b.Of)
+		for _, cb := range all[lo:hi] {
+			L := cb.L
+			defs := []int{-1, L - 1, L - 2, L, L / 2, L - 4096, 65536, L - L%4096}
+			nd := 2
+			if b.N > 1 {
+				nd = len(defs)
+			}
+			for k := 0; k < nd; k++ {
+				d := defs[r.Intn(len(defs))]
+				if b.N > 1 {
+					d = defs[k]
+				}
+				g := &c05Gen{Filler: cb.f, Size: L + 1 + r.Intn(70000), DefAt: d, DefByte: []byte{0x00, '}', '"', 0x01, ',', '\n'}[r.Intn(6)]}
+				if cb.f == "zeros" {
+					g.DefByte = 'x'
+				}
+				x := g.build()
+				c05CurGen = g
+				chunks := []int{0, 4096, 65536, 32769, -2}
+				errAts := []int{-1, -1, L - 1, L, L + 1, L / 2, 65536, L - 4096, L - 1 - r.Intn(1000)}
+				nc := 4
+				if b.N > 1 {
+					nc = 14
+				}
+				for j := 0; j < nc; j++ {
+					ch := chunks[r.Intn(len(chunks))]
+					if ch == -2 && L > 300000 {
+						ch = 4096
+					}
+					ea := errAts[r.Intn(len(errAts))]
+					if ea < -1 || ea > len(x) {
+						ea = -1
+					}
+					sc := c05Sched{Chunk: ch, ZeroN: r.Intn(2), ErrAt: ea, ErrWith: r.Intn(2) == 0, ErrClass: r.Intn(len(errClasses)), RandSeed: r.Int63(), SetLimitTo: -1}
+					c05JudgeReader(c, "long-stream", x, uint32(L), uint32(L), sc)
+					c.Count("long_stream_cases", 1)
+					c.Max("largest_limit_with_a_longer_stream", int64(L))
+				}
+				c05CurGen = nil
+			}
+		}
 	case "reader-zoo":
 		// concrete reader types of the standard library (a fast path keyed on the
 		// dynamic type must behave like the generic path)
@@ -528,7 +632,7 @@ func init() {
 	fw.Register(&fw.Prop{
 		ID:    "C05",
 		Level: "fault_enumeration",
-		Rule: "inputs = every seed + text tails + small text documents; limits {0, 1, len-1, len, len+1, 3072, random}; chunk schedules {1, 2, 3, 7, 512, as-asked, random 1-9, random 1-2000} with occasional (0, nil) reads and data returned together with io.EOF; a preceding DetectReader under a different limit (state left behind); an error (a plain sentinel, and error values of 15 classes: deadline exceeded bare / wrapped / in a net.OpError, context errors, closed pipe, ECONNRESET, EINTR, EAGAIN, a PathError, an error whose text is \"EOF\") injected at EVERY offset 0..min(len, limit) for headers <= 600 bytes (every k-th and the last 4 offsets beyond), returned alone or together with the last bytes before it; the standard library's concrete readers (bytes.Buffer, bytes.Reader, strings.Reader, bufio.Reader, io.LimitReader, io.MultiReader, iotest one-byte / half / data-with-error readers) with their consumption checked; DetectFile over temp files for every input and limit, an empty file, procfs files (regular files whose stat size is 0), sparse files of 2 GiB … 8 GiB whose size does not fit 31 / 32 bits, a missing path, a directory (EISDIR) and /proc/self/mem (read error). The instrumented reader records bytes handed out, calls, and when the sentinel was really returned; expectations are derived from those observations. " +
+		Rule: "inputs = every seed + text tails + small text documents; limits {0, 1, len-1, len, len+1, 3072, random}; chunk schedules {1, 2, 3, 7, 512, as-asked, random 1-9, random 1-2000} with occasional (0, nil) reads and data returned together with io.EOF; a preceding DetectReader under a different limit (state left behind); an error (a plain sentinel, and error values of 15 classes: deadline exceeded bare / wrapped / in a net.OpError, context errors, closed pipe, ECONNRESET, EINTR, EAGAIN, a PathError, an error whose text is \"EOF\") injected at EVERY offset 0..min(len, limit) for headers <= 600 bytes (every k-th and the last 4 offsets beyond), returned alone or together with the last bytes before it; the standard library's concrete readers (bytes.Buffer, bytes.Reader, strings.Reader, bufio.Reader, io.LimitReader, io.MultiReader, iotest one-byte / half / data-with-error readers) with their consumption checked; DetectFile over temp files for every input and limit, an empty file, procfs files (regular files whose stat size is 0), sparse files of 2 GiB … 8 GiB whose size does not fit 31 / 32 bits, a missing path, a directory (EISDIR) and /proc/self/mem (read error); streams much longer than the limit (JSON / text / CSV / NDJSON / zero fillers of limit + 1 … limit + 70000 bytes with one deciding defect at limit-1, limit-2, limit, limit/2, a page boundary …) for limits 4095 … 5 MiB with chunk sizes as-asked / 4096 / 32769 / 65536 and errors of every class injected just before, at and after the limit. The instrumented reader records bytes handed out, calls, and when the sentinel was really returned; expectations are derived from those observations. " +
 			"non-trivial = a short-read schedule or an injected fault actually occurred before the header was complete; distinct = distinct (chunk kind, zero reads, EOF-with-data, limit class, error offset class, error-with-data, previous-limit differs, outcome).",
 		Assumptions: []string{
 			"only conforming readers: never n > len(p), never endless (0, nil)",
@@ -547,6 +651,11 @@ func init() {
 			bs = append(bs, batches("files", 4, 0, 1800)...)
 			bs = append(bs, batches("limit-change", 2, 0, 1800)...)
 			bs = append(bs, batches("reader-zoo", 1, 1, 1800)...)
+			ls := 1
+			if tier == "thorough" {
+				ls = 2
+			}
+			bs = append(bs, batches("long-stream", 6, ls, 1800)...)
 			return bs
 		},
 		Run: c05Run,
@@ -569,6 +678,10 @@ func init() {
 				defer os.RemoveAll(dir)
 				c05JudgeFile(c, p.Kind, p.In, p.Limit, dir)
 				return
+			}
+			if p.Gen != nil {
+				c05CurGen = p.Gen
+				p.In = p.Gen.build()
 			}
 			c05JudgeReader(c, p.Kind, p.In, p.Limit, p.Prev, p.Sched)
 		},
